@@ -33,7 +33,10 @@ ASSUMPTIONS = [
 COMPONENTS = {"real": ["generator, distributions, mol_prob.get_ensemble_prob"], "stub": ["3-D embedding", "numpy bit generator (SimRng)"]}
 UNITS_ASYM = ["{0}C(N)C{1}", "{0}CCO{1}", "{0}C(=O)C{1}", "{0}[Si](C)(C)O{1}", "{0}CS{1}", "{0}CC(=O)O{1}", "{0}C(C#N)C{1}",
               # attachment atoms written in brackets with their hydrogens / an isotope label (the same units as CO, NCC, CC(=O)N ...)
-              "{0}[CH2]O{1}", "{0}[NH]CC{1}", "{0}[CH2]C(=O)N{1}", "{0}[13CH2]S{1}"]
+              "{0}[CH2]O{1}", "{0}[NH]CC{1}", "{0}[CH2]C(=O)N{1}", "{0}[13CH2]S{1}",
+              # a pendant atom on one attachment atom with the element of the other attachment atom: the fragment also matches
+              # across the junction into the neighbouring unit (the match enumeration must tell the copies apart)
+              "{0}C(C)C(F){1}", "{0}C(C)C(=O){1}", "{0}N(C)C(=O)N{1}"]
 UNITS_HALO = ["{0}CC(Cl){1}", "{0}CC(F){1}"]
 # units whose fragment has an automorphism that moves an attachment atom (known finding F-symmetric), and ring units
 UNITS_SYM = ["{0}CC{1}", "{0}C{1}", "{0}COC{1}", "{0}CC(C)({1})C(=O)OC", "{0}CC({1})c1ccccc1"]
